@@ -481,7 +481,7 @@ func (e *SpecEnv) index(x EIndex) SVal {
 		i := e.intOf(x.I)
 		es := e.W.Sorts.SortOf(u.Elem())
 		m := e.Heap.Comp(memComp(es), memSort(es))
-		return SVal{T: Sel(Sel(m, SArr(v.T)), Add(SOff(v.T), i)), Go: u.Elem()}
+		return SVal{T: e.W.Sorts.Elt(Sel(m, SArr(v.T)), SOff(v.T), i), Go: u.Elem()}
 	case *types.Basic:
 		if u.Info()&types.IsString != 0 {
 			return SVal{T: StrAt(v.T, e.intOf(x.I)), Go: types.Typ[types.Uint8]}
@@ -490,7 +490,7 @@ func (e *SpecEnv) index(x EIndex) SVal {
 		if a, ok := u.Elem().Underlying().(*types.Array); ok {
 			es := e.W.Sorts.SortOf(a.Elem())
 			m := e.Heap.Comp(memComp(es), memSort(es))
-			return SVal{T: Sel(Sel(m, v.T), e.intOf(x.I)), Go: a.Elem()}
+			return SVal{T: e.W.Sorts.Elt(Sel(m, v.T), IntLit(0), e.intOf(x.I)), Go: a.Elem()}
 		}
 	case *types.Array:
 		_, val, _ := v.T.Sort.IsArray()
@@ -844,7 +844,10 @@ func (w *World) ProcessSpecs() error {
 		for l := range ds.lits {
 			si.deps["strlit:"+l] = true
 		}
-		if si.sf.Recursive {
+		// predicates with quantifiers are kept opaque (declare + definitional axiom)
+		// so that congruence closure can identify instances with equal arguments
+		opaque := si.sf.Recursive || strings.Contains(body.T.S, "(forall ") || strings.Contains(body.T.S, "(exists ")
+		if opaque {
 			si.declOnly = fmt.Sprintf("(declare-fun sf!%s (%s) %s)", name, sig, si.result)
 			call := "sf!" + name
 			if len(callArgs) > 0 {
